@@ -72,7 +72,11 @@ def registered():
     src = open(os.path.join(V, "props", "registry.go")).read()
     import re
     m = re.search(r"\[\]\*sim\.Scenario\{([^}]*)\}", src)
-    return [x.strip() for x in m.group(1).split(",") if x.strip()]
+    out = [x.strip() for x in m.group(1).split(",") if x.strip()]
+    ri = os.path.join(V, "props", "registry_instr.go")
+    if os.path.exists(ri):
+        out += re.findall(r"C\d\d", open(ri).read())
+    return out
 
 def main():
     reg = registered()
